@@ -111,6 +111,14 @@ func (m *Mock) Inherit(previousGeneration filters.Filter) {
 
 func (m *Mock) reload() {
 	for _, r := range m.spec.Rules {
+		// compile the regular expressions of the header criteria, a
+		// criterion that is not initialized never matches by 'regex'.
+		for _, h := range r.Match.Headers {
+			if h != nil {
+				h.Init()
+			}
+		}
+
 		if r.Delay == "" {
 			continue
 		}
